@@ -318,7 +318,7 @@ def rtc_increment_sweeps(rng, tier):
             for s0 in range(0, 64, 8):
                 lines.append('rtc.incsweep %d %d 0 63 0 31 %d %d %d' % (s0, s0 + 7, d, d, carry))
                 nstates += 8 * 64 * 32
-    cases.append(('incsweep', lines))
+    sweep_cases = [('incsweep', lines)]
     if tier == 'thorough':
         # the complete space 64 x 64 x 32 x 512 x 2, one digest line per (s, carry)
         for carry in (0, 1):
@@ -326,7 +326,7 @@ def rtc_increment_sweeps(rng, tier):
             for s in range(64):
                 lines.append('rtc.incsweep %d %d 0 63 0 31 0 511 %d' % (s, s, carry))
                 nstates += 64 * 32 * 512
-            cases.append(('incall_c%d' % carry, lines))
+            sweep_cases.append(('incall_c%d' % carry, lines))
     # individually observable boundary states (full 14-field state printed, so the unchanged fields are compared)
     k = 0
     pts = []
@@ -356,7 +356,7 @@ def rtc_increment_sweeps(rng, tier):
                                    rng.randrange(2), rng.randrange(2)))
             lines += ['rtc.inc', 'rtc.get']
         cases.append(('incrnd%d' % j, lines))
-    return cases, nstates
+    return cases + sweep_cases, nstates
 
 
 def rtc_sel(reg):
@@ -410,6 +410,20 @@ def rtc_histories(rng, n, max_ticks=3000000, types=(0x0f, 0x10)):
                 lines.append('rtc.get')
         lines += ['cart.w 0x0000 0x0a', 'cart.w 0x6000 0', 'cart.w 0x6000 1'] + rtc_read_all() + ['rtc.get']
         cases.append(('rtch%d' % i, lines))
+    return cases
+
+
+def rtc_mask_reads(rng, n):
+    """register reads are masked to their widths: hook-set latched values over the whole uint8/uint16 range"""
+    cases = []
+    for i in range(n):
+        lines = ['cart.new 16 0 3', 'cart.w 0x0000 0x0a']
+        for _ in range(20):
+            lines.append(rtc_state(0, 0, 0, 0, 0, 0, rng.randrange(256), rng.randrange(256), rng.randrange(256),
+                                   rng.choice([rng.randrange(65536), 0x100, 0x200, 0x300, 0xff00, 0xffff]),
+                                   rng.randrange(2), rng.randrange(2), 0, 0))
+            lines += rtc_read_all()
+        cases.append(('mask%d' % i, lines))
     return cases
 
 
